@@ -1,1 +1,288 @@
-// reference models (filled in per property)
+//! Reference models: an independent implementation of Hoffman & Gelman's Algorithm 6 (NUTS with
+//! slice sampling and the efficient tree building) in plain f64 on the analytic gradient, fed the
+//! draws the library consumed BY ROLE (momentum, slice level, direction of each doubling, merge
+//! uniform of each merge in recursion order, accept uniform of each doubling).
+//!
+//! Every discrete decision carries a margin derived from a shadow trajectory started a few backend
+//! ulps away (condition-aware tolerance); a decision inside its margin marks the transition
+//! "ambiguous": it is not judged, only counted.
+
+use crate::gtargets::GTarget;
+
+#[derive(Clone, Debug)]
+pub struct Pt {
+    pub x: Vec<f64>,
+    pub p: Vec<f64>,
+    pub g: Vec<f64>,
+    /// shadow copy (perturbed start), same discrete history
+    pub xs: Vec<f64>,
+    pub ps: Vec<f64>,
+    pub gs: Vec<f64>,
+    /// number of leapfrog steps from the start of the transition (for the rounding floor)
+    pub k: usize,
+}
+
+#[derive(Clone, Debug, Default)]
+pub struct Feed {
+    pub dirs: Vec<i8>,
+    pub merge_us: Vec<f64>,
+    pub accept_us: Vec<f64>,
+    pub di: usize,
+    pub mi: usize,
+    pub ai: usize,
+}
+
+#[derive(Clone, Debug, PartialEq)]
+pub enum Stop {
+    UTurn,
+    SubtreeStopped,
+    Divergence,
+    /// the library performed more doublings than the reference wants (feed exhausted is the other way round)
+    FeedExhausted,
+}
+
+#[derive(Clone, Debug)]
+pub struct TreeOut {
+    pub minus: Pt,
+    pub plus: Pt,
+    pub cand: Pt,
+    pub cand_joint: f64,
+    pub n: usize,
+    pub s: bool,
+    pub alpha: f64,
+    pub n_alpha: usize,
+    pub diverged: bool,
+}
+
+pub struct Ctx<'a> {
+    pub t: &'a GTarget,
+    pub eps: f64,
+    pub eps_b: f64,
+    pub logu: f64,
+    pub joint0: f64,
+    pub feed: Feed,
+    pub ambiguous: Option<String>,
+    pub structure_error: Option<String>,
+    pub leaves: Vec<(Vec<f64>, f64, f64)>, // (x, joint, tolerance on x) of every leaf in visiting order
+    pub max_joint_err: f64,
+    pub leapfrogs: usize,
+}
+
+fn maxabs(v: &[f64]) -> f64 {
+    v.iter().fold(0.0f64, |a, b| a.max(b.abs()))
+}
+fn maxdiff(a: &[f64], b: &[f64]) -> f64 {
+    a.iter().zip(b).fold(0.0f64, |m, (x, y)| if (x - y).is_nan() { f64::INFINITY } else { m.max((x - y).abs()) })
+}
+
+impl<'a> Ctx<'a> {
+    pub fn start(&self, x: &[f64], p: &[f64]) -> Pt {
+        let pert = |v: &[f64], salt: u64| -> Vec<f64> { v.iter().enumerate().map(|(i, a)| a + 4.0 * self.eps_b * (a.abs() + 1e-3) * if (i as u64 + salt) % 2 == 0 { 1.0 } else { -1.0 }).collect() };
+        let xs = pert(x, 0);
+        let ps = pert(p, 1);
+        Pt { x: x.to_vec(), p: p.to_vec(), g: self.t.grad(x), gs: self.t.grad(&xs), xs, ps, k: 0 }
+    }
+
+    fn leap(&mut self, a: &Pt, v: i8) -> Pt {
+        self.leapfrogs += 1;
+        let e = v as f64 * self.eps;
+        let step = |x: &[f64], p: &[f64], g: &[f64], t: &GTarget| -> (Vec<f64>, Vec<f64>, Vec<f64>) {
+            let mut p1: Vec<f64> = p.iter().zip(g).map(|(p, g)| p + 0.5 * e * g).collect();
+            let x1: Vec<f64> = x.iter().zip(p1.iter()).map(|(x, p)| x + e * p).collect();
+            let g1 = t.grad(&x1);
+            for i in 0..p1.len() {
+                p1[i] += 0.5 * e * g1[i];
+            }
+            (x1, p1, g1)
+        };
+        let (x, p, g) = step(&a.x, &a.p, &a.g, self.t);
+        let (xs, ps, gs) = step(&a.xs, &a.ps, &a.gs, self.t);
+        Pt { x, p, g, xs, ps, gs, k: a.k + 1 }
+    }
+
+    pub fn joint(&self, a: &Pt) -> (f64, f64) {
+        let j = self.t.logp(&a.x) - 0.5 * a.p.iter().map(|v| v * v).sum::<f64>();
+        let js = self.t.logp(&a.xs) - 0.5 * a.ps.iter().map(|v| v * v).sum::<f64>();
+        let mag = self.t.logp(&a.x).abs() + a.p.iter().map(|v| v * v).sum::<f64>() + 1.0;
+        let tol = 64.0 * (j - js).abs() + 256.0 * self.eps_b * mag * (a.k as f64 + 1.0).sqrt();
+        (j, if tol.is_nan() { f64::INFINITY } else { tol })
+    }
+
+    pub fn pos_tol(&self, a: &Pt) -> f64 {
+        let scale = maxabs(&a.x).max(1.0);
+        64.0 * maxdiff(&a.x, &a.xs) + 256.0 * self.eps_b * scale * (a.k as f64 + 1.0)
+    }
+
+    /// U-turn test of the library: continue iff (x+ - x-).p- >= 0 and (x+ - x-).p+ >= 0
+    fn no_uturn(&mut self, minus: &Pt, plus: &Pt) -> bool {
+        let dot = |xm: &[f64], xp: &[f64], p: &[f64]| -> f64 { xp.iter().zip(xm).zip(p).map(|((a, b), c)| (a - b) * c).sum() };
+        let d1 = dot(&minus.x, &plus.x, &minus.p);
+        let d2 = dot(&minus.x, &plus.x, &plus.p);
+        let d1s = dot(&minus.xs, &plus.xs, &minus.ps);
+        let d2s = dot(&minus.xs, &plus.xs, &plus.ps);
+        let len: f64 = plus.x.iter().zip(&minus.x).map(|(a, b)| (a - b).abs()).sum::<f64>() + 1e-300;
+        let floor = 256.0 * self.eps_b * len * (maxabs(&minus.p).max(maxabs(&plus.p)) + 1e-300) * (plus.k.max(minus.k) as f64 + 1.0);
+        let m1 = 64.0 * (d1 - d1s).abs() + floor;
+        let m2 = 64.0 * (d2 - d2s).abs() + floor;
+        if !(d1.is_finite() && d2.is_finite()) {
+            // NaN / inf dot products: the comparison `>= 0` is false for NaN in the library as well
+            return d1 >= 0.0 && d2 >= 0.0;
+        }
+        if (d1.abs() <= m1 || d2.abs() <= m2) && self.ambiguous.is_none() {
+            // a sign inside its margin only matters if the other test does not already decide "stop"
+            let other_decides = (d1 < -m1) || (d2 < -m2);
+            if !other_decides {
+                self.ambiguous = Some(format!("U-turn dot products {d1:e} / {d2:e} inside their margins {m1:e} / {m2:e}"));
+            }
+        }
+        d1 >= 0.0 && d2 >= 0.0
+    }
+
+    pub fn build_tree(&mut self, from: &Pt, v: i8, j: usize) -> TreeOut {
+        if j == 0 {
+            let q = self.leap(from, v);
+            let (joint, tol) = self.joint(&q);
+            self.max_joint_err = self.max_joint_err.max(tol);
+            if self.ambiguous.is_none() {
+                if (self.logu - joint).abs() <= tol {
+                    self.ambiguous = Some(format!("slice test: joint {joint} within {tol:e} of the slice level {}", self.logu));
+                } else if (self.logu - 1000.0 - joint).abs() <= tol {
+                    self.ambiguous = Some(format!("divergence test: joint {joint} within {tol:e} of slice level - 1000"));
+                }
+            }
+            let n = (self.logu < joint) as usize;
+            let s = (self.logu - 1000.0) < joint;
+            let alpha = (joint - self.joint0).exp().min(1.0);
+            // (f64::min returns the non-NaN operand: a NaN energy change counts as alpha = 1 here as in the library)
+            let xt = self.pos_tol(&q);
+            self.leaves.push((q.x.clone(), joint, xt));
+            return TreeOut { minus: q.clone(), plus: q.clone(), cand: q, cand_joint: joint, n, s, alpha, n_alpha: 1, diverged: !s };
+        }
+        let mut a = self.build_tree(from, v, j - 1);
+        if a.s {
+            let start = if v == -1 { a.minus.clone() } else { a.plus.clone() };
+            let b = self.build_tree(&start, v, j - 1);
+            if v == -1 {
+                a.minus = b.minus.clone();
+            } else {
+                a.plus = b.plus.clone();
+            }
+            let u = if self.feed.mi < self.feed.merge_us.len() {
+                self.feed.mi += 1;
+                self.feed.merge_us[self.feed.mi - 1]
+            } else {
+                if self.structure_error.is_none() {
+                    self.structure_error = Some("Algorithm 6 merges two sub-trees here but the library drew no merge uniform".into());
+                }
+                0.5
+            };
+            let denom = (a.n + b.n).max(1);
+            if u < b.n as f64 / denom as f64 {
+                a.cand = b.cand.clone();
+                a.cand_joint = b.cand_joint;
+            }
+            a.n += b.n;
+            let nu = self.no_uturn(&a.minus.clone(), &a.plus.clone());
+            a.diverged = a.diverged || b.diverged;
+            a.s = a.s && b.s && nu;
+            a.alpha += b.alpha;
+            a.n_alpha += b.n_alpha;
+        }
+        a
+    }
+}
+
+#[derive(Clone, Debug)]
+pub struct TransitionOut {
+    pub next: Vec<f64>,
+    pub next_tol: f64,
+    pub depth: usize,
+    pub n: usize,
+    pub alpha: f64,
+    pub n_alpha: usize,
+    pub alpha_tol: f64,
+    pub stop: Stop,
+    pub ambiguous: Option<String>,
+    pub structure_error: Option<String>,
+    pub leaves: Vec<(Vec<f64>, f64, f64)>,
+    pub leapfrogs: usize,
+    pub moved: bool,
+}
+
+/// One NUTS transition per Algorithm 6 from position `x` with momentum `p0`, slice level `logu`
+/// (log scale), step size `eps`, consuming the fed draws.
+pub fn nuts_transition(t: &GTarget, x: &[f64], p0: &[f64], logu: f64, eps: f64, eps_b: f64, feed: Feed, max_depth: usize) -> TransitionOut {
+    let joint0 = t.logp(x) - 0.5 * p0.iter().map(|v| v * v).sum::<f64>();
+    let mut c = Ctx { t, eps, eps_b, logu, joint0, feed, ambiguous: None, structure_error: None, leaves: vec![], max_joint_err: 0.0, leapfrogs: 0 };
+    let start = c.start(x, p0);
+    let (mut minus, mut plus) = (start.clone(), start.clone());
+    let mut cur = start.clone();
+    let mut moved = false;
+    let (mut j, mut n) = (0usize, 1usize);
+    let (mut alpha, mut n_alpha) = (0.0, 0usize);
+    let stop;
+    loop {
+        if c.feed.di >= c.feed.dirs.len() {
+            stop = Stop::FeedExhausted;
+            break;
+        }
+        if j > max_depth {
+            stop = Stop::FeedExhausted;
+            if c.ambiguous.is_none() {
+                c.ambiguous = Some("tree deeper than the reference's budget".into());
+            }
+            break;
+        }
+        let v = c.feed.dirs[c.feed.di];
+        c.feed.di += 1;
+        let from = if v == -1 { minus.clone() } else { plus.clone() };
+        let tr = c.build_tree(&from, v, j);
+        if v == -1 {
+            minus = tr.minus.clone();
+        } else {
+            plus = tr.plus.clone();
+        }
+        alpha = tr.alpha;
+        n_alpha = tr.n_alpha;
+        let ua = if c.feed.ai < c.feed.accept_us.len() {
+            c.feed.ai += 1;
+            c.feed.accept_us[c.feed.ai - 1]
+        } else {
+            if c.structure_error.is_none() {
+                c.structure_error = Some("no accept uniform traced for this doubling".into());
+            }
+            1.0
+        };
+        let ratio = (tr.n as f64 / n as f64).min(1.0);
+        if tr.s && (ua - ratio).abs() < 1e-6 && ratio < 1.0 && c.ambiguous.is_none() {
+            c.ambiguous = Some(format!("accept uniform {ua} within 1e-6 of n'/n = {ratio}"));
+        }
+        if tr.s && ua < ratio {
+            cur = tr.cand.clone();
+            moved = true;
+        }
+        n += tr.n;
+        let nu = c.no_uturn(&minus.clone(), &plus.clone());
+        j += 1;
+        if !(tr.s && nu) {
+            stop = if tr.diverged { Stop::Divergence } else if !tr.s { Stop::SubtreeStopped } else { Stop::UTurn };
+            break;
+        }
+    }
+    let next_tol = c.pos_tol(&cur);
+    TransitionOut {
+        next: cur.x.clone(),
+        next_tol,
+        depth: j,
+        n,
+        alpha,
+        n_alpha,
+        alpha_tol: c.max_joint_err * n_alpha.max(1) as f64,
+        stop,
+        ambiguous: c.ambiguous.clone(),
+        structure_error: c.structure_error.clone(),
+        leaves: std::mem::take(&mut c.leaves),
+        leapfrogs: c.leapfrogs,
+        moved,
+    }
+}
